@@ -99,6 +99,19 @@ class Ctx:
         self.violations.append(dict(key=key, what=what, detail=jsonable(detail)))
         return True
 
+    def binding_demo(self, name, module, cfg_text, mc_text, expect):
+        """Demonstrate that the trace specification is bound to what is logged: a deliberately corrupted
+        event must be rejected by the invariant `expect`.  A corrupted trace that is accepted is a failure of
+        the machinery (the check would be vacuous), not of phonopy."""
+        res = tlcmod.run(module, cfg_text=cfg_text, extra_files={module + ".tla": mc_text}, workers=2,
+                         extra_args=("-continue",))
+        names = sorted(set(n for n, _ in res.violations))
+        ok = expect in names
+        self.extra.setdefault("binding_demos", []).append(dict(demo=name, expected=expect, rejected_by=names, ok=ok))
+        if not ok:
+            raise tlcmod.MachineryError("binding demonstration %s: corrupted trace was accepted (expected %s, got %s)"
+                                        % (name, expect, names))
+
     def sample(self, s, cap=6):
         if len(self.samples) < cap:
             self.samples.append(jsonable(s))
